@@ -1353,7 +1353,7 @@ class CSym(object):
         if lv[0] == "var":
             if self.in_parallel and not self.in_single and not self.dry and self.par is None and not self._is_private(lv[1]):
                 # executed by every thread of the team on a variable that lives outside the region
-                self.side.append(("shared-scalar-write", lv[1], (), (), self.fn_stack[-1]))
+                self.side.append(("shared-scalar-write", lv[1], (v,), (), self.fn_stack[-1]))
             if lv[1] not in env and self._global_decl(lv[1])[1] is not None:
                 self._global_scalar(lv[1])
                 self.genv[lv[1]] = v
